@@ -2,6 +2,7 @@ package main
 
 import (
 	"fmt"
+	"go/types"
 	"sort"
 	"strings"
 
@@ -113,4 +114,65 @@ func (e *Engine) noReach(fn *ssa.Function, targets []string) []*OblResult {
 		out = append(out, r)
 	}
 	return out
+}
+
+// `attr deterministic`: the function (and every module function it can reach through static
+// calls and closures) contains no source of nondeterminism at the Go level: no range over a
+// map, no select, no goroutine start, no clock / random source. Together with the assumption
+// that the library functions it calls are functions of their arguments this makes its result
+// a function of its inputs.
+func (e *Engine) deterministic(fn *ssa.Function) *OblResult {
+	r := &OblResult{Name: e.shortFuncName(fn) + "/deterministic", Class: "deterministic", Func: e.funcKey(fn), Kind: "prove",
+		Clause: "no map iteration, select, goroutine, clock or random source in " + e.shortFuncName(fn) + " or the module functions it calls",
+		Status: "discharged", Solve: SolveResult{Status: "unsat", Winner: "ssa-scan"}}
+	seen := map[*ssa.Function]bool{}
+	var offend string
+	var walk func(f *ssa.Function, depth int)
+	walk = func(f *ssa.Function, depth int) {
+		if f == nil || seen[f] || offend != "" || depth > 12 {
+			return
+		}
+		seen[f] = true
+		for _, b := range f.Blocks {
+			for _, in := range b.Instrs {
+				switch x := in.(type) {
+				case *ssa.Range:
+					if _, ok := x.X.Type().Underlying().(*types.Map); ok {
+						offend = fmt.Sprintf("range over a map in %s (%s)", e.shortFuncName(f), e.fset.Position(x.Pos()))
+						return
+					}
+				case *ssa.Select:
+					offend = fmt.Sprintf("select in %s", e.shortFuncName(f))
+					return
+				case *ssa.Go:
+					offend = fmt.Sprintf("goroutine started in %s", e.shortFuncName(f))
+					return
+				case *ssa.MakeClosure:
+					walk(x.Fn.(*ssa.Function), depth+1)
+				case ssa.CallInstruction:
+					callee := x.Common().StaticCallee()
+					if callee == nil {
+						continue
+					}
+					full := callee.String()
+					if strings.HasPrefix(full, "time.Now") || strings.HasPrefix(full, "math/rand") || strings.HasPrefix(full, "crypto/rand") || strings.HasPrefix(full, "maps.Keys") || strings.HasPrefix(full, "maps.Values") {
+						offend = fmt.Sprintf("call to %s in %s", full, e.shortFuncName(f))
+						return
+					}
+					if e.inModule(callee) && callee.Blocks != nil {
+						if h := e.externHandler(callee); h != nil {
+							continue // logging etc.
+						}
+						walk(callee, depth+1)
+					}
+				}
+			}
+		}
+	}
+	walk(fn, 0)
+	if offend != "" {
+		r.Status = "refuted"
+		r.Solve = SolveResult{Status: "sat", Winner: "ssa-scan", Model: []string{offend}}
+	}
+	return r
 }
